@@ -15,6 +15,8 @@
      peer close  PClose1 / PClose2     halfClose: CAS opened->halfClosed ; safeCloseNotify   (336-338)
      local close LLoad / LCas / LClean / LNotify   Stream.close: load state; CAS ->closed; clean();
                                        safeCloseNotify only if the old state was opened     (289-301)
+                 LDefer    Stream.Close that finds an OnData callback in progress (275-283): only
+                           CAS opened->halfClosed, the close itself is deferred; closeNotifyCh stays open
      session     SClose    Session.Close's loop: stream.safeCloseNotify()                   (session.go 307-311)
      deadline    SetDL d   SetReadDeadline, by the reading goroutine between two calls
      clock       Tick d ; Fire (the runtime delivers the timer value once now >= its time)
@@ -47,6 +49,7 @@ Record st := {
   ppc : bool;          (* halfClose is between its CAS and safeCloseNotify *)
   lc : lpc;            (* Stream.close in progress *)
   sclosing : bool;     (* Session.Close has notified this stream *)
+  cbhalf : bool;       (* ghost: half-closed by a local Close that found a callback in progress (no notify) *)
   now : Z;
   dl : option Z;       (* s.readDeadline (None = zero time) *)
   tmr : option Z;      (* the timer is armed and fires at this time *)
@@ -60,13 +63,14 @@ Inductive ev :=
 | EAdd (n : nat) | EFin
 | PClose1 | PClose2
 | LLoad | LCas | LClean | LNotify
+| LDefer
 | SClose
 | SetDL (d : option Z)
 | Tick (d : Z) | Fire.
 
 Definition init : st :=
   {| pend := 0; rbuf := 0; token := false; closeN := false; ss := SOpen; epc := false; ppc := false; lc := LIdle;
-     sclosing := false; now := 0; dl := None; tmr := None; tch := false; use_t := false; armed := 0;
+     sclosing := false; cbhalf := false; now := 0; dl := None; tmr := None; tch := false; use_t := false; armed := 0;
      rd := RIdle; minsz := 0; res := None |}.
 
 Definition sst_eqb (a b : sst) : bool :=
@@ -75,22 +79,22 @@ Definition sst_eqb (a b : sst) : bool :=
 (* return before the timer section: no deferred cleanup *)
 Definition finish_early (s : st) (r : result) : st :=
   {| pend := pend s; rbuf := rbuf s; token := token s; closeN := closeN s; ss := ss s; epc := epc s; ppc := ppc s;
-     lc := lc s; sclosing := sclosing s; now := now s; dl := dl s; tmr := tmr s; tch := tch s; use_t := use_t s;
+     lc := lc s; sclosing := sclosing s; cbhalf := cbhalf s; now := now s; dl := dl s; tmr := tmr s; tch := tch s; use_t := use_t s;
      armed := armed s; rd := RDone; minsz := minsz s; res := Some r |}.
 (* return from the select loop: deferred Stop + drain *)
 Definition finish_late (s : st) (r : result) : st :=
   {| pend := pend s; rbuf := rbuf s; token := token s; closeN := closeN s; ss := ss s; epc := epc s; ppc := ppc s;
-     lc := lc s; sclosing := sclosing s; now := now s; dl := dl s; tmr := None; tch := false; use_t := use_t s;
+     lc := lc s; sclosing := sclosing s; cbhalf := cbhalf s; now := now s; dl := dl s; tmr := None; tch := false; use_t := use_t s;
      armed := armed s; rd := RDone; minsz := minsz s; res := Some r |}.
 
 Definition move_to (s : st) : st :=
   {| pend := 0; rbuf := (rbuf s + pend s)%nat; token := token s; closeN := closeN s; ss := ss s; epc := epc s;
-     ppc := ppc s; lc := lc s; sclosing := sclosing s; now := now s; dl := dl s; tmr := tmr s; tch := tch s;
+     ppc := ppc s; lc := lc s; sclosing := sclosing s; cbhalf := cbhalf s; now := now s; dl := dl s; tmr := tmr s; tch := tch s;
      use_t := use_t s; armed := armed s; rd := rd s; minsz := minsz s; res := res s |}.
 
 Definition set_rd (s : st) (p : rpc) : st :=
   {| pend := pend s; rbuf := rbuf s; token := token s; closeN := closeN s; ss := ss s; epc := epc s; ppc := ppc s;
-     lc := lc s; sclosing := sclosing s; now := now s; dl := dl s; tmr := tmr s; tch := tch s; use_t := use_t s;
+     lc := lc s; sclosing := sclosing s; cbhalf := cbhalf s; now := now s; dl := dl s; tmr := tmr s; tch := tch s; use_t := use_t s;
      armed := armed s; rd := p; minsz := minsz s; res := res s |}.
 
 Definition reader_step (s : st) : st :=
@@ -105,11 +109,11 @@ Definition reader_step (s : st) : st :=
     match dl s with
     | Some d =>
       {| pend := pend s; rbuf := rbuf s; token := token s; closeN := closeN s; ss := ss s; epc := epc s; ppc := ppc s;
-         lc := lc s; sclosing := sclosing s; now := now s; dl := dl s; tmr := Some d; tch := tch s; use_t := true;
+         lc := lc s; sclosing := sclosing s; cbhalf := cbhalf s; now := now s; dl := dl s; tmr := Some d; tch := tch s; use_t := true;
          armed := d; rd := RParked; minsz := minsz s; res := res s |}
     | None =>
       {| pend := pend s; rbuf := rbuf s; token := token s; closeN := closeN s; ss := ss s; epc := epc s; ppc := ppc s;
-         lc := lc s; sclosing := sclosing s; now := now s; dl := dl s; tmr := tmr s; tch := tch s; use_t := false;
+         lc := lc s; sclosing := sclosing s; cbhalf := cbhalf s; now := now s; dl := dl s; tmr := tmr s; tch := tch s; use_t := false;
          armed := armed s; rd := RParked; minsz := minsz s; res := res s |}
     end
   | RWokeN =>
@@ -129,7 +133,7 @@ Definition wake (s : st) (b : branch) : st :=
     | BNotify =>
       if token s then
         {| pend := pend s; rbuf := rbuf s; token := false; closeN := closeN s; ss := ss s; epc := epc s; ppc := ppc s;
-           lc := lc s; sclosing := sclosing s; now := now s; dl := dl s; tmr := tmr s; tch := tch s; use_t := use_t s;
+           lc := lc s; sclosing := sclosing s; cbhalf := cbhalf s; now := now s; dl := dl s; tmr := tmr s; tch := tch s; use_t := use_t s;
            armed := armed s; rd := RWokeN; minsz := minsz s; res := res s |}
       else s
     | BClose => if closeN s then set_rd s RWokeC else s
@@ -144,7 +148,7 @@ Definition step (s : st) (e : ev) : st :=
     match rd s with
     | RIdle | RDone =>
       {| pend := pend s; rbuf := rbuf s; token := token s; closeN := closeN s; ss := ss s; epc := epc s; ppc := ppc s;
-         lc := lc s; sclosing := sclosing s; now := now s; dl := dl s; tmr := tmr s; tch := tch s; use_t := false;
+         lc := lc s; sclosing := sclosing s; cbhalf := cbhalf s; now := now s; dl := dl s; tmr := tmr s; tch := tch s; use_t := false;
          armed := armed s; rd := RCheck; minsz := m; res := None |}
     | _ => s
     end
@@ -153,30 +157,30 @@ Definition step (s : st) (e : ev) : st :=
   | EAdd n =>
     if epc s || (n =? 0)%nat then s else
       {| pend := (pend s + n)%nat; rbuf := rbuf s; token := token s; closeN := closeN s; ss := ss s; epc := true;
-         ppc := ppc s; lc := lc s; sclosing := sclosing s; now := now s; dl := dl s; tmr := tmr s; tch := tch s;
+         ppc := ppc s; lc := lc s; sclosing := sclosing s; cbhalf := cbhalf s; now := now s; dl := dl s; tmr := tmr s; tch := tch s;
          use_t := use_t s; armed := armed s; rd := rd s; minsz := minsz s; res := res s |}
   | EFin =>
     if epc s then
       if sst_eqb (ss s) SClosed then
         {| pend := 0; rbuf := 0; token := token s; closeN := closeN s; ss := ss s; epc := false;
-           ppc := ppc s; lc := lc s; sclosing := sclosing s; now := now s; dl := dl s; tmr := tmr s; tch := tch s;
+           ppc := ppc s; lc := lc s; sclosing := sclosing s; cbhalf := cbhalf s; now := now s; dl := dl s; tmr := tmr s; tch := tch s;
            use_t := use_t s; armed := armed s; rd := rd s; minsz := minsz s; res := res s |}
       else
         {| pend := pend s; rbuf := rbuf s; token := true; closeN := closeN s; ss := ss s; epc := false;
-           ppc := ppc s; lc := lc s; sclosing := sclosing s; now := now s; dl := dl s; tmr := tmr s; tch := tch s;
+           ppc := ppc s; lc := lc s; sclosing := sclosing s; cbhalf := cbhalf s; now := now s; dl := dl s; tmr := tmr s; tch := tch s;
            use_t := use_t s; armed := armed s; rd := rd s; minsz := minsz s; res := res s |}
     else s
   | PClose1 =>
     if ppc s then s else
       if sst_eqb (ss s) SOpen then
         {| pend := pend s; rbuf := rbuf s; token := token s; closeN := closeN s; ss := SHalf; epc := epc s;
-           ppc := true; lc := lc s; sclosing := sclosing s; now := now s; dl := dl s; tmr := tmr s; tch := tch s;
+           ppc := true; lc := lc s; sclosing := sclosing s; cbhalf := cbhalf s; now := now s; dl := dl s; tmr := tmr s; tch := tch s;
            use_t := use_t s; armed := armed s; rd := rd s; minsz := minsz s; res := res s |}
       else s
   | PClose2 =>
     if ppc s then
       {| pend := pend s; rbuf := rbuf s; token := token s; closeN := true; ss := ss s; epc := epc s;
-         ppc := false; lc := lc s; sclosing := sclosing s; now := now s; dl := dl s; tmr := tmr s; tch := tch s;
+         ppc := false; lc := lc s; sclosing := sclosing s; cbhalf := cbhalf s; now := now s; dl := dl s; tmr := tmr s; tch := tch s;
          use_t := use_t s; armed := armed s; rd := rd s; minsz := minsz s; res := res s |}
     else s
   | LLoad =>
@@ -184,7 +188,7 @@ Definition step (s : st) (e : ev) : st :=
     | LIdle =>
       if sst_eqb (ss s) SClosed then s else
         {| pend := pend s; rbuf := rbuf s; token := token s; closeN := closeN s; ss := ss s; epc := epc s;
-           ppc := ppc s; lc := LLoaded (ss s); sclosing := sclosing s; now := now s; dl := dl s; tmr := tmr s;
+           ppc := ppc s; lc := LLoaded (ss s); sclosing := sclosing s; cbhalf := cbhalf s; now := now s; dl := dl s; tmr := tmr s;
            tch := tch s; use_t := use_t s; armed := armed s; rd := rd s; minsz := minsz s; res := res s |}
     | _ => s
     end
@@ -193,11 +197,11 @@ Definition step (s : st) (e : ev) : st :=
     | LLoaded old =>
       if sst_eqb (ss s) old then
         {| pend := pend s; rbuf := rbuf s; token := token s; closeN := closeN s; ss := SClosed; epc := epc s;
-           ppc := ppc s; lc := LCased old; sclosing := sclosing s; now := now s; dl := dl s; tmr := tmr s;
+           ppc := ppc s; lc := LCased old; sclosing := sclosing s; cbhalf := cbhalf s; now := now s; dl := dl s; tmr := tmr s;
            tch := tch s; use_t := use_t s; armed := armed s; rd := rd s; minsz := minsz s; res := res s |}
       else
         {| pend := pend s; rbuf := rbuf s; token := token s; closeN := closeN s; ss := ss s; epc := epc s;
-           ppc := ppc s; lc := LIdle; sclosing := sclosing s; now := now s; dl := dl s; tmr := tmr s;
+           ppc := ppc s; lc := LIdle; sclosing := sclosing s; cbhalf := cbhalf s; now := now s; dl := dl s; tmr := tmr s;
            tch := tch s; use_t := use_t s; armed := armed s; rd := rd s; minsz := minsz s; res := res s |}
     | _ => s
     end
@@ -205,7 +209,7 @@ Definition step (s : st) (e : ev) : st :=
     match lc s with
     | LCased old =>
       {| pend := 0; rbuf := 0; token := token s; closeN := closeN s; ss := ss s; epc := epc s;
-         ppc := ppc s; lc := LCleaned old; sclosing := sclosing s; now := now s; dl := dl s; tmr := tmr s;
+         ppc := ppc s; lc := LCleaned old; sclosing := sclosing s; cbhalf := cbhalf s; now := now s; dl := dl s; tmr := tmr s;
          tch := tch s; use_t := use_t s; armed := armed s; rd := rd s; minsz := minsz s; res := res s |}
     | _ => s
     end
@@ -213,26 +217,34 @@ Definition step (s : st) (e : ev) : st :=
     match lc s with
     | LCleaned old =>
       {| pend := pend s; rbuf := rbuf s; token := token s; closeN := closeN s || sst_eqb old SOpen; ss := ss s; epc := epc s;
-         ppc := ppc s; lc := LIdle; sclosing := sclosing s; now := now s; dl := dl s; tmr := tmr s;
+         ppc := ppc s; lc := LIdle; sclosing := sclosing s; cbhalf := cbhalf s; now := now s; dl := dl s; tmr := tmr s;
          tch := tch s; use_t := use_t s; armed := armed s; rd := rd s; minsz := minsz s; res := res s |}
     | _ => s
     end
+  | LDefer =>
+    (* Stream.Close (275-285) while callbackInProcess = 1 (an OnData is running): only
+       CAS(state, opened -> halfClosed); the real close is left to the callback goroutine.  NO safeCloseNotify. *)
+    if sst_eqb (ss s) SOpen then
+      {| pend := pend s; rbuf := rbuf s; token := token s; closeN := closeN s; ss := SHalf; epc := epc s;
+         ppc := ppc s; lc := lc s; sclosing := sclosing s; cbhalf := true; now := now s; dl := dl s; tmr := tmr s;
+         tch := tch s; use_t := use_t s; armed := armed s; rd := rd s; minsz := minsz s; res := res s |}
+    else s
   | SClose =>
     {| pend := pend s; rbuf := rbuf s; token := token s; closeN := true; ss := ss s; epc := epc s;
-       ppc := ppc s; lc := lc s; sclosing := true; now := now s; dl := dl s; tmr := tmr s;
+       ppc := ppc s; lc := lc s; sclosing := true; cbhalf := cbhalf s; now := now s; dl := dl s; tmr := tmr s;
        tch := tch s; use_t := use_t s; armed := armed s; rd := rd s; minsz := minsz s; res := res s |}
   | SetDL d =>
     match rd s with
     | RIdle | RDone =>
       {| pend := pend s; rbuf := rbuf s; token := token s; closeN := closeN s; ss := ss s; epc := epc s;
-         ppc := ppc s; lc := lc s; sclosing := sclosing s; now := now s; dl := d; tmr := tmr s;
+         ppc := ppc s; lc := lc s; sclosing := sclosing s; cbhalf := cbhalf s; now := now s; dl := d; tmr := tmr s;
          tch := tch s; use_t := use_t s; armed := armed s; rd := rd s; minsz := minsz s; res := res s |}
     | _ => s
     end
   | Tick d =>
     if 0 <? d then
       {| pend := pend s; rbuf := rbuf s; token := token s; closeN := closeN s; ss := ss s; epc := epc s;
-         ppc := ppc s; lc := lc s; sclosing := sclosing s; now := now s + d; dl := dl s; tmr := tmr s;
+         ppc := ppc s; lc := lc s; sclosing := sclosing s; cbhalf := cbhalf s; now := now s + d; dl := dl s; tmr := tmr s;
          tch := tch s; use_t := use_t s; armed := armed s; rd := rd s; minsz := minsz s; res := res s |}
     else s
   | Fire =>
@@ -240,7 +252,7 @@ Definition step (s : st) (e : ev) : st :=
     | Some t =>
       if t <=? now s then
         {| pend := pend s; rbuf := rbuf s; token := token s; closeN := closeN s; ss := ss s; epc := epc s;
-           ppc := ppc s; lc := lc s; sclosing := sclosing s; now := now s; dl := dl s; tmr := None;
+           ppc := ppc s; lc := lc s; sclosing := sclosing s; cbhalf := cbhalf s; now := now s; dl := dl s; tmr := None;
            tch := true; use_t := use_t s; armed := armed s; rd := rd s; minsz := minsz s; res := res s |}
       else s
     | None => s
